@@ -11,6 +11,7 @@ import (
 	"sort"
 	"strconv"
 	"strings"
+	"sync"
 	"time"
 )
 
@@ -37,7 +38,7 @@ func (r *Rng) Range(lo, hi int64) int64 { // inclusive
 	}
 	return lo + int64(r.U64()%uint64(hi-lo+1))
 }
-func (r *Rng) Bool() bool       { return r.U64()&1 == 1 }
+func (r *Rng) Bool() bool        { return r.U64()&1 == 1 }
 func (r *Rng) Chance(p int) bool { return r.Intn(100) < p }
 func (r *Rng) Bytes(n int) []byte {
 	b := make([]byte, n)
@@ -129,13 +130,18 @@ func (a Args) N(quick, thorough int) int {
 var Out = bufio.NewWriterSize(os.Stdout, 1<<16)
 
 func Emit(format string, a ...any) { fmt.Fprintf(Out, format+"\n", a...) }
-func Flush()                        { Out.Flush() }
+func Flush()                       { Out.Flush() }
 
 // Stat lines (`#stat name value`) carry the measured input distribution into the evidence.
 type Stats map[string]int
 
-func (s Stats) Inc(k string) { s[k]++ }
+var statsMu sync.Mutex
+
+func (s Stats) Inc(k string)        { statsMu.Lock(); s[k]++; statsMu.Unlock() }
+func (s Stats) Add(k string, n int) { statsMu.Lock(); s[k] += n; statsMu.Unlock() }
 func (s Stats) Dump() {
+	statsMu.Lock()
+	defer statsMu.Unlock()
 	keys := make([]string, 0, len(s))
 	for k := range s {
 		keys = append(keys, k)
